@@ -24,6 +24,14 @@ def arr(vals):
     return numpy.array(vals, dtype=U32)
 
 
+def strided(vals):
+    """The same values as a NON-contiguous view (every 2nd element of a larger array holding junk in between)."""
+    big = numpy.full(2 * len(vals) + 1, 0xDEAD, dtype=U32)
+    big[::2][: len(vals)] = vals
+    v = big[::2][: len(vals)]
+    return v
+
+
 def pair_blocks(tier, chunk=8):
     out = []
     for uname, uni in universes(tier).items():
